@@ -588,6 +588,7 @@ func TestVerifC18(t *testing.T) {
 	c18Histories(c, mc.Pick(c, 3, 4))
 	c18Files(c)
 	c18Bootstrap(c, mc.Pick(c, 4, 5))
+	c18Context(c, mc.Pick(c, 2, 3))
 	c18Dates(c)
 	if code := c.Finish(); code != 0 {
 		os.Exit(code)
